@@ -1,3 +1,4 @@
+import Sparrow.Proofs.StokesFnEquiv
 import Sparrow.Proofs.StokesLemmas
 import Sparrow.Proofs.StokesConstants
 /-
@@ -73,3 +74,39 @@ theorem integrator_constants_as_modelled :
   Sparrow.boole_weights_as_modelled
 
 end Sparrow.Props.C05
+
+namespace Sparrow.Props.C05.StokesFn
+open Sparrow Sparrow.Generated.StokesFn
+
+
+theorem newtonCotes4th_eq {α : Type} [Add α] [Sub α] [Mul α] [Div α] [NatCast α] (x y : Nat → α) :
+    newtonCotes4th x y = boole x y :=
+  Sparrow.newtonCotes4th_eq x y
+
+/-- `load_stokes_entries` -/
+theorem loadStokesEntries_eq (ib jb : Nat → Nat → ℝ) (ni nj i j : Nat) (hi : i < ni) (hj : j < nj) :
+    loadStokesEntries ib jb ni nj i j =
+      Transc.log (Vec3.norm (Vec3.sub (⟨ib i 0, ib i 1, ib i 2⟩ : Vec3 ℝ) ⟨jb j 0, jb j 1, jb j 2⟩)) :=
+  Sparrow.loadStokesEntries_eq ib jb ni nj i j hi hj
+
+/-- `_sample_boundary_regular`, the points: row `r < 4n` is the model's boundary sample -/
+theorem sampleBoundary_pts (el : Nat → Nat → ℝ) (n : Nat) (jp : Nat → Nat → ℝ) (jc : Nat → Nat → Nat) (r q : Nat)
+    (hr : r / 4 < n) :
+    (sampleBoundaryRegular el n jp jc).1 r q =
+      el (r / 4) q + ((r % 4 : Nat) : ℝ) * (el ((r / 4 + 1) % n) q - el (r / 4) q) / ((4 : Nat) : ℝ) :=
+  Sparrow.sampleBoundary_pts el n jp jc r q hr
+
+/-- … and the connectivity rows -/
+theorem sampleBoundary_conn (el : Nat → Nat → ℝ) (n : Nat) (jp : Nat → Nat → ℝ) (jc : Nat → Nat → Nat) (a k : Nat)
+    (ha : a < n) (hk : k ≤ 4) :
+    (sampleBoundaryRegular el n jp jc).2 a k = conn n a k :=
+  Sparrow.sampleBoundary_conn el n jp jc a k ha hk
+
+/-- **`stokes_integration` as recognised = the model's `stokesFF`**, for every pair of polygons, every cut-off and area, and
+    whatever the `np.empty` buffers of the boundary sampler held -/
+theorem stokesIntegration_eq (cut : ℝ) (pI pJ : Nat → Nat → ℝ) (nI nJ : Nat) (area : ℝ)
+    (jp1 jp2 : Nat → Nat → ℝ) (jc1 jc2 : Nat → Nat → Nat) :
+    stokesIntegration cut pI pJ nI nJ area jp1 jp2 jc1 jc2 = stokesFF cut (ptsOf pI) (ptsOf pJ) nI nJ area :=
+  Sparrow.stokesIntegration_eq cut pI pJ nI nJ area jp1 jp2 jc1 jc2
+
+end Sparrow.Props.C05.StokesFn
